@@ -151,6 +151,10 @@ func describeUses(root *ggql.Root, dus []*ggql.DirectiveUse, o DescribeOpts) str
 					at = a.Type
 				}
 				args[k] = canonTyped(at, av.Value)
+			} else if a := decl[k]; av != nil && a != nil && a.Default != nil {
+				// a null written out for an argument that has a default overrides the default; for
+				// an argument without a default it says the same as leaving the argument out
+				args[k] = "null"
 			}
 		}
 		if o.FillDefaults {
